@@ -60,7 +60,7 @@ Definition r_step (U : list key) (m : server) (now : Z) (c : ccmd) : server * br
           let cnt := Z.of_nat (length (filter (fun x => (st <=? x) && (x <=? en)) l1)) in
           let d1 := match l1 with [] => None | _ => d end in
           if cnt <? mx
-          then (supd m k (Some (RZSet (if existsb (Z.eqb en) l1 then l1 else l1 ++ [en]), if 0 <? ttl then Some (now + ttl) else d1)), BInt (cnt + 1))
+          then (supd m k (Some (RZSet (l1 ++ [en]), if 0 <? ttl then Some (now + ttl) else d1)), BInt (cnt + 1))
           else (match l, l1 with [], _ => m | _, [] => supd m k None | _, _ => supd m k (Some (RZSet l1, d)) end, BInt cnt)
       end
   | CSetAdd k ms ttl =>
